@@ -232,7 +232,7 @@ def check(repo, rep):
         sl_ = pieces[0][1][2][0][2]
         on, off = sl_[1], sl_[2]
         nxt = [k for k, v in envend.items() if v == off and on is not None and on[0] == 'loopvar' and on[1] == k]
-        rep.ob('pieces are contiguous: the next piece starts where this one ends', bool(nxt), W(pieces[0][3]), 'AudioRegion.__truediv__:contiguous', 'slice [%s : %s]; loop variables at the end of the iteration: %s' % (show(on)[:40] if on else None, show(off)[:80] if off else None, {k: show(v)[:50] for k, v in envend.items() if v}))
+        rep.ob('pieces are contiguous: the next piece starts where this one ends', bool(nxt), W(pieces[0][3]), 'AudioRegion.__truediv__:contiguous', 'slice [%s : %s]; loop variables at the end of the iteration: %s' % (show(on)[:40] if on else None, show(off)[:80] if off else None, {k: show(v)[:50] for k, v in envend.items() if v}), loop_rule=True)
         if on is None or on[0] != 'loopvar' or len(on) != 4:
             rep.unknown('AudioRegion.__truediv__: onset of the pieces (%s) is not a loop variable with an initial value' % (show(on)[:40] if on else None))
         else:
